@@ -141,8 +141,14 @@ def make_case(ctx, g):
                     elif proto.canon_record(rec) != before:
                         fails.append(Failure("oracle", None, "refused second value changed the record", {"ops": list(w.ops)}))
                 else:
-                    rep = v if g.chance(0.5) else (str(v) if isinstance(v, QualifiedName) else
-                                                   (v.isoformat() if isinstance(v, datetime.datetime) else v))
+                    rep = v
+                    if g.chance(0.5):
+                        if isinstance(v, QualifiedName):
+                            back = rec.bundle.valid_qualified_name(str(v))
+                            if back is not None and back.uri == v.uri:   # the print form still denotes v here (C03)
+                                rep = str(v)
+                        elif isinstance(v, datetime.datetime):
+                            rep = v.isoformat()
                     err = w.add_attrs(h, [(a, rep)])
                     flags.add("same-value")
                     if err is not None or proto.canon_record(rec) != before:
